@@ -45,6 +45,9 @@ func (NonStringPrimitiveResolver) ResolveArg(i any) (e ArgExpr, _ error) {
 		// Go has no constant expression for a non-finite float (the exporter prints "float64(+Inf)"),
 		// such a value must be computed in the runtime.
 		code = nonFiniteFloat(f)
+	} else if ok && f == 0 && math.Signbit(f) {
+		// The exporter prints "float64(-0)", but the constant -0 is an integer constant, i.e. plain zero: the sign would be lost.
+		code = "func() float64 { var z float64; return -z }()"
 	} else if ok && math.Abs(f) >= maxPlainFloat {
 		// The exporter prints such a value as a decimal integer ("float64(1000...0)", hundreds of digits for 1e300).
 		// That is an untyped integer constant, and the compiler rejects integer constants that do not fit 512 bits
